@@ -175,7 +175,7 @@ class Sieve:
         self.findings = [f for f in load_findings(prop) if f.get('status') == 'known']
         self.matchers = matchers or {}
         self.cap = cap
-        self.records, self.hits, self.extra = [], {}, 0
+        self.records, self.hits, self.extra, self.classes = [], {}, 0, {}
 
     def add(self, record):
         for f in self.findings:
@@ -187,6 +187,8 @@ class Sieve:
                     return False
             except Exception:
                 continue
+        ck = str(record.get('class') or record.get('kind'))
+        self.classes[ck] = self.classes.get(ck, 0) + 1
         if len(self.records) < self.cap:
             self.records.append(record)
         else:
@@ -194,7 +196,7 @@ class Sieve:
         return True
 
     def result(self):
-        return (self.records, self.hits, self.extra)
+        return (self.records, self.hits, self.extra, self.classes)
 
 
 class Run:
@@ -207,6 +209,7 @@ class Run:
         self.violations = 0
         self.replays_written = 0
         self.known_hits = {}  # finding id -> count
+        self.violation_classes = {}
         self.matchers = matchers or {}  # pred name -> callable(case_record, finding) -> bool
         self.findings = [f for f in load_findings(prop) if f.get('status') == 'known']
         self.fixed = [f for f in load_findings(prop) if f.get('status') == 'fixed']
@@ -252,7 +255,10 @@ class Run:
 
     def merge(self, sieve_result):
         """fold a worker's Sieve.result() into this run."""
-        records, hits, extra = sieve_result
+        records, hits, extra = sieve_result[:3]
+        if len(sieve_result) > 3:
+            for k, v in sieve_result[3].items():
+                self.violation_classes[k] = self.violation_classes.get(k, 0) + v
         for k, v in hits.items():
             self.known_hits[k] = self.known_hits.get(k, 0) + v
         for r in records:
@@ -269,6 +275,9 @@ class Run:
         cov['known_finding_hits'] = dict(self.known_hits)
         if self.notes:
             cov['notes'] = self.notes
+        if self.violation_classes:
+            cov['violation_classes'] = dict(self.violation_classes)
+            print('violation classes:', self.violation_classes)
         ev = {
             'property_id': self.prop,
             'tier': self.args.tier,
